@@ -1,5 +1,530 @@
-//! C13 - monitor not written yet.
+//! C13 - digests equal the standard algorithms for every input and every
+//! read pattern.
+//!
+//! Refuting events: `hash_str`, `hash_file`, `hash_patch` return a string
+//! different from the oracle's lower-case hex digest; a read schedule changes
+//! the result; an injected hard error yields `Ok`; `Interrupted` yields an
+//! error or a different digest; a name variant does not parse to its
+//! algorithm or prints non-canonically; a non-name parses.
+//!
+//! Oracle: Python `hashlib` (`oracle/digest_vectors.py`, run by the plan's
+//! pre-stage hook) supplies the inputs and, per input, the six plain and the
+//! six patch-filtered digests.  The harness owns the readers, so it decides
+//! how every read is cut, interrupted or failed.
 
-use crate::fw::Cx;
+use crate::fw::{show, CaseResult, Cx, Ev, Tier};
+use crate::gen::digest::{self as gd, Schedule};
+use crate::oracle::digest::{self as od, Vector, NAMES};
+use crate::rng::{hash_strs, Rng};
+use pkgsrc::digest::{Digest, DigestError, DigestResult};
+use std::io::Read;
+use std::str::FromStr;
 
-pub fn run(_cx: &mut Cx) {}
+const ALGS: [Digest; 6] =
+    [Digest::BLAKE2s, Digest::MD5, Digest::RMD160, Digest::SHA1, Digest::SHA256, Digest::SHA512];
+
+#[derive(Clone, Copy, PartialEq, Eq)]
+enum Entry {
+    File,
+    Patch,
+}
+
+impl Entry {
+    fn name(self) -> &'static str {
+        match self {
+            Entry::File => "file",
+            Entry::Patch => "patch",
+        }
+    }
+}
+
+const ENTRIES: [Entry; 2] = [Entry::File, Entry::Patch];
+const FAMILIES: [&str; 7] = ["whole", "slice", "byte1", "short", "marker", "newline", "intr"];
+const FAULT_CLASSES: [&str; 3] = ["first", "middle", "after-data"];
+
+fn call<R: Read>(alg: Digest, e: Entry, rd: &mut R) -> DigestResult<String> {
+    match e {
+        Entry::File => alg.hash_file(rd),
+        Entry::Patch => alg.hash_patch(rd),
+    }
+}
+
+fn err_kind(e: &DigestError) -> String {
+    match e {
+        DigestError::Io(io) => format!("DigestError::Io(kind {:?})", io.kind()),
+        DigestError::Unsupported(_) => "DigestError::Unsupported".to_string(),
+    }
+}
+
+fn show_input(v: &Vector, data: &[u8]) -> String {
+    let head = &data[..data.len().min(160)];
+    format!(
+        "input #{} class={} len={} bytes=\"{}\"{}",
+        v.index,
+        v.class,
+        data.len(),
+        show(head),
+        if data.len() > head.len() { "... (full bytes: entry of the vectors file)" } else { "" }
+    )
+}
+
+/// Compare one observation with the oracle's digest.
+fn verdict(
+    ai: usize,
+    e: &str,
+    how: &str,
+    got: DigestResult<String>,
+    want: &str,
+) -> Result<String, String> {
+    match got {
+        Ok(h) if h == want => Ok(h),
+        Ok(h) => Err(format!(
+            "{}.hash_{e} via {how}: observed {h:?}, hashlib says {want:?}",
+            NAMES[ai]
+        )),
+        Err(err) => Err(format!(
+            "{}.hash_{e} via {how}: observed Err({}), expected Ok({want:?})",
+            NAMES[ai],
+            err_kind(&err)
+        )),
+    }
+}
+
+/// Run `scheds` through one entry point and compare every result.
+fn run_schedules(
+    ev: &mut Ev,
+    ai: usize,
+    e: Entry,
+    data: &[u8],
+    want: &str,
+    scheds: &[Schedule],
+) -> CaseResult {
+    let alg = ALGS[ai];
+    let mut first: Option<String> = None;
+    for s in scheds {
+        let mut rd = s.reader(data);
+        let got = call(alg, e, &mut rd);
+        ev.eval();
+        let h = verdict(ai, e.name(), &s.describe(), got, want)?;
+        // Results identical across schedules (implied by equality with the
+        // oracle, checked explicitly because the statement says so).
+        match &first {
+            None => first = Some(h),
+            Some(f) => {
+                ev.eval();
+                if *f != h {
+                    return Err(format!(
+                        "{}.hash_{}: schedule {} changed the result: {h:?} vs {f:?}",
+                        NAMES[ai],
+                        e.name(),
+                        s.describe()
+                    )
+                    .into());
+                }
+            }
+        }
+        ev.count(&format!("cell/{}/{}/{}", NAMES[ai], e.name(), s.family));
+        ev.max("max/reads-per-call", rd.reads);
+    }
+    Ok(())
+}
+
+fn names(cx: &mut Cx) {
+    let mut i = 0u64;
+    for (ai, canon) in NAMES.iter().enumerate() {
+        // Display of the enum constant itself.
+        i += 1;
+        if cx.mine(i) {
+            cx.check(
+                || format!("Display of Digest::{canon}"),
+                |ev| {
+                    ev.eval();
+                    ev.count("names/display");
+                    let got = ALGS[ai].to_string();
+                    if got != *canon {
+                        return Err(format!("prints {got:?}, canonical spelling is {canon:?}").into());
+                    }
+                    Ok(())
+                },
+            );
+        }
+        for var in gd::case_variants(canon) {
+            i += 1;
+            if !cx.mine(i) {
+                continue;
+            }
+            cx.check(
+                || format!("Digest::from_str({var:?}), a case variant of {canon}"),
+                |ev| {
+                    ev.evals(2);
+                    ev.count(&format!("names/variant/{canon}"));
+                    let d = match Digest::from_str(&var) {
+                        Ok(d) => d,
+                        Err(e) => {
+                            return Err(format!("rejected with {}", err_kind(&e)).into());
+                        }
+                    };
+                    if d != ALGS[ai] {
+                        return Err(format!("parsed to {d}, expected {canon}").into());
+                    }
+                    let printed = d.to_string();
+                    if printed != *canon {
+                        return Err(format!("parsed value prints {printed:?}, expected {canon:?}").into());
+                    }
+                    if var != *canon {
+                        ev.nontrivial(hash_strs(&[b"name", var.as_bytes()]));
+                    }
+                    Ok(())
+                },
+            );
+        }
+    }
+    for bad in gd::NOT_NAMES {
+        i += 1;
+        if !cx.mine(i) {
+            continue;
+        }
+        cx.check(
+            || format!("Digest::from_str({bad:?}), not an algorithm name"),
+            |ev| {
+                ev.eval();
+                ev.count("names/rejected");
+                match Digest::from_str(bad) {
+                    Ok(d) => Err(format!("parsed to {d}, expected DigestError::Unsupported").into()),
+                    Err(DigestError::Unsupported(_)) => {
+                        ev.nontrivial(hash_strs(&[b"notname", bad.as_bytes()]));
+                        Ok(())
+                    }
+                    Err(e) => {
+                        Err(format!("rejected with {}, expected DigestError::Unsupported", err_kind(&e))
+                            .into())
+                    }
+                }
+            },
+        );
+    }
+}
+
+pub fn run(cx: &mut Cx) {
+    cx.default_budget();
+    let tier = cx.tier;
+    let mini = tier == Tier::Mini;
+    for n in NAMES {
+        cx.ev.require(&format!("cell/{n}/str/direct"));
+        cx.ev.require(&format!("names/variant/{n}"));
+        for e in ENTRIES {
+            for f in FAMILIES {
+                cx.ev.require(&format!("cell/{n}/{}/{f}", e.name()));
+            }
+            if !mini {
+                cx.ev.require(&format!("cell/{n}/{}/stdfile", e.name()));
+            }
+        }
+    }
+    for e in ENTRIES {
+        for c in FAULT_CLASSES {
+            cx.ev.require(&format!("fault/{}/{c}", e.name()));
+        }
+        for k in gd::INTR_KINDS {
+            cx.ev.require(&format!("intr/{}/{k}", e.name()));
+        }
+    }
+    cx.ev.require("names/rejected");
+    cx.ev.require("names/display");
+    if !mini {
+        cx.ev.require("str/lengths-0-130-all-covered");
+    }
+
+    // ---- oracle data (harness errors panic here, outside any case) ----
+    let (shard, nshards, seed) = (cx.shard, cx.nshards, cx.seed);
+    let vectors = od::load(seed, tier.name(), &|i| i % nshards == shard);
+    if shard == 0 {
+        // hash_str reaches every length 0..=130 (block boundaries of all six
+        // algorithms) iff the file holds a valid-UTF-8 input of each length;
+        // each shard hashes all of its own valid-UTF-8 inputs below.
+        let all = (0..=130usize).all(|l| vectors.iter().any(|v| v.len == l && v.utf8));
+        if all {
+            cx.ev.count("str/lengths-0-130-all-covered");
+        }
+        cx.ev.add("input/total-in-vectors-file", vectors.len() as u64);
+    }
+    let scratch = cx.scratch.clone();
+    if !mini {
+        std::fs::create_dir_all(&scratch)
+            .unwrap_or_else(|e| od::die!("harness: cannot create scratch directory {scratch:?}: {e}"));
+    }
+
+    for v in &vectors {
+        if !cx.mine(v.index) {
+            continue;
+        }
+        let data: &[u8] = v.data.as_deref().expect("harness: own entries are decoded");
+        let len = data.len();
+        let text = std::str::from_utf8(data).ok();
+        if text.is_some() != v.utf8 {
+            od::die!("harness: vectors entry {} disagrees with Rust about UTF-8 validity", v.index);
+        }
+        let markers = od::marker_offsets(data);
+        let newlines = od::newline_offsets(data);
+        let mut r = Rng::stream(seed, "C13/schedules", v.index, 0);
+
+        cx.ev.count(&format!("input/class/{}", v.class));
+        cx.ev.max("max/input-len", len as u64);
+        if !markers.is_empty() {
+            cx.ev.count("input/has-marker");
+        }
+        if len > 0 && data[len - 1] != b'\n' {
+            cx.ev.count("input/unterminated-last-line");
+        }
+        if data.windows(2).any(|w| w == b"\r\n") {
+            cx.ev.count("input/has-crlf");
+        }
+        if v.plain[3] == v.filtered[3] {
+            cx.ev.count("input/patch-filter-is-identity");
+        } else {
+            cx.ev.count("input/patch-filter-changes-bytes");
+        }
+
+        let path = scratch.join(format!("in-{}", v.index));
+        if !mini {
+            std::fs::write(&path, data)
+                .unwrap_or_else(|e| od::die!("harness: cannot write scratch file {path:?}: {e}"));
+        }
+
+        // ---- schedules shared by the six algorithms of this input ----
+        let mut full: Vec<Schedule> = vec![gd::whole(), gd::byte1()];
+        full.push(gd::short(&mut r, len, 7));
+        full.push(gd::short(&mut r, len, (len / 2).max(2)));
+        if len > 700 {
+            full.push(gd::short(&mut r, len, 9000));
+        }
+        if !markers.is_empty() {
+            for off in 0..=6 {
+                full.push(gd::marker(&markers, off));
+            }
+        }
+        if !newlines.is_empty() {
+            for mode in 0..3 {
+                full.push(gd::newline(&newlines, mode));
+            }
+        }
+        // cuts for the interrupt / fault workloads
+        let cuts: Vec<usize> = if len <= 6 {
+            (1..len).collect()
+        } else {
+            gd::interesting_cuts(&mut r, len, &markers, &newlines, 5)
+        };
+        let intr_all: Vec<Schedule> = (0..4).map(|k| gd::interrupted(k, &cuts, len)).collect();
+        let kmax = if len == 0 { 0 } else { cuts.len() + 1 };
+
+        for ai in 0..6 {
+            let alg = ALGS[ai];
+            let rot = (v.index as usize).wrapping_add(ai);
+
+            // ---- hash_str ----
+            if let Some(s) = text {
+                let want = &v.plain[ai];
+                cx.check(
+                    || format!("{}.hash_str on {}", NAMES[ai], show_input(v, data)),
+                    |ev| {
+                        ev.eval();
+                        ev.count(&format!("cell/{}/str/direct", NAMES[ai]));
+                        verdict(ai, "str", "the &str", alg.hash_str(s), want)?;
+                        if len > 0 {
+                            ev.nontrivial(hash_strs(&[b"str", NAMES[ai].as_bytes(), data]));
+                        }
+                        Ok(())
+                    },
+                );
+            }
+
+            for e in ENTRIES {
+                let want: &str = match e {
+                    Entry::File => &v.plain[ai],
+                    Entry::Patch => &v.filtered[ai],
+                };
+                let shift = if e == Entry::Patch { 3 } else { 0 };
+
+                // ---- read schedules without faults ----
+                let chosen: Vec<Schedule>;
+                let (scheds, with_slice, with_file): (&[Schedule], bool, bool) = if mini {
+                    // one schedule per (input, algorithm, entry), rotating
+                    // over the families that exist for this input
+                    let pick = (rot + shift) % (full.len() + 1);
+                    if pick == full.len() {
+                        (&[], true, false)
+                    } else {
+                        chosen = vec![full[pick].clone()];
+                        (&chosen, false, false)
+                    }
+                } else {
+                    (&full, true, true)
+                };
+                let mut fh = if with_file {
+                    Some(std::fs::File::open(&path).unwrap_or_else(|e| {
+                        od::die!("harness: cannot reopen scratch file {path:?}: {e}")
+                    }))
+                } else {
+                    None
+                };
+                cx.check(
+                    || {
+                        format!(
+                            "{}.hash_{} under {} read schedules on {}",
+                            NAMES[ai],
+                            e.name(),
+                            scheds.len() + with_slice as usize + with_file as usize,
+                            show_input(v, data)
+                        )
+                    },
+                    |ev| {
+                        run_schedules(ev, ai, e, data, want, scheds)?;
+                        if with_slice {
+                            let mut sl: &[u8] = data;
+                            ev.eval();
+                            ev.count(&format!("cell/{}/{}/slice", NAMES[ai], e.name()));
+                            verdict(ai, e.name(), "std &[u8] reader", call(alg, e, &mut sl), want)?;
+                        }
+                        if let Some(f) = fh.as_mut() {
+                            ev.eval();
+                            ev.count(&format!("cell/{}/{}/stdfile", NAMES[ai], e.name()));
+                            verdict(ai, e.name(), "std::fs::File", call(alg, e, f), want)?;
+                        }
+                        if len > 1 {
+                            ev.nontrivial(hash_strs(&[
+                                b"sched",
+                                NAMES[ai].as_bytes(),
+                                e.name().as_bytes(),
+                                data,
+                            ]));
+                        }
+                        Ok(())
+                    },
+                );
+
+                // Mini: interrupts and faults for one algorithm per input.
+                if mini && rot % 6 != 0 {
+                    continue;
+                }
+
+                // ---- Interrupted: same digest, never an error ----
+                let intr_pick: Vec<Schedule>;
+                let intr: &[Schedule] = if mini {
+                    intr_pick = vec![intr_all[(v.index as usize / 6 + shift) % 4].clone()];
+                    &intr_pick
+                } else {
+                    &intr_all
+                };
+                cx.check(
+                    || {
+                        format!(
+                            "{}.hash_{} with Interrupted injected (placements: {}; cuts at {:?}) on {}",
+                            NAMES[ai],
+                            e.name(),
+                            intr.iter().map(|s| s.tag).collect::<Vec<_>>().join(" / "),
+                            cuts,
+                            show_input(v, data)
+                        )
+                    },
+                    |ev| {
+                        for s in intr {
+                            let mut rd = s.reader(data);
+                            let got = call(alg, e, &mut rd);
+                            ev.eval();
+                            verdict(ai, e.name(), &s.describe(), got, want)?;
+                            if rd.intr_served > 0 {
+                                ev.count(&format!("cell/{}/{}/intr", NAMES[ai], e.name()));
+                                ev.count(&format!("intr/{}/{}", e.name(), s.tag));
+                                ev.max("max/interrupts-per-call", rd.intr_served);
+                            }
+                        }
+                        ev.nontrivial(hash_strs(&[
+                            b"intr",
+                            NAMES[ai].as_bytes(),
+                            e.name().as_bytes(),
+                            data,
+                        ]));
+                        Ok(())
+                    },
+                );
+
+                // ---- hard error at chunk k: Err, never Ok ----
+                let ks: Vec<usize> = if mini {
+                    let mut ks = vec![(v.index as usize / 6 + shift) % (kmax + 1), kmax];
+                    ks.dedup();
+                    ks
+                } else {
+                    (0..=kmax).collect()
+                };
+                cx.check(
+                    || {
+                        format!(
+                            "{}.hash_{} with a hard read error after chunk k in {:?} (chunk ends {:?}) on {}",
+                            NAMES[ai],
+                            e.name(),
+                            ks,
+                            cuts,
+                            show_input(v, data)
+                        )
+                    },
+                    |ev| {
+                        for &k in &ks {
+                            let s = gd::fault(k, &cuts, len);
+                            let mut rd = s.reader(data);
+                            let got = call(alg, e, &mut rd);
+                            ev.eval();
+                            match got {
+                                Ok(h) => {
+                                    return Err(format!(
+                                        "{}.hash_{} via {}: observed Ok({h:?}) although the reader \
+                                         returned a hard error ({} served after {} bytes); expected Err",
+                                        NAMES[ai],
+                                        e.name(),
+                                        s.describe(),
+                                        rd.fail_served,
+                                        rd.consumed()
+                                    )
+                                    .into());
+                                }
+                                Err(err) => {
+                                    if rd.fail_served == 0 {
+                                        return Err(format!(
+                                            "{}.hash_{} via {}: observed Err({}) before the reader \
+                                             had failed (every read so far succeeded)",
+                                            NAMES[ai],
+                                            e.name(),
+                                            s.describe(),
+                                            err_kind(&err)
+                                        )
+                                        .into());
+                                    }
+                                    match err {
+                                        DigestError::Io(_) => ev.count("fault-kind/Io"),
+                                        DigestError::Unsupported(_) => ev.count("fault-kind/not-Io"),
+                                    }
+                                }
+                            }
+                            ev.count(&format!(
+                                "fault/{}/{}",
+                                e.name(),
+                                gd::fault_class(k, &cuts, len)
+                            ));
+                        }
+                        ev.nontrivial(hash_strs(&[
+                            b"fault",
+                            NAMES[ai].as_bytes(),
+                            e.name().as_bytes(),
+                            data,
+                        ]));
+                        Ok(())
+                    },
+                );
+            }
+        }
+        if !mini {
+            let _ = std::fs::remove_file(&path);
+        }
+    }
+
+    names(cx);
+}
